@@ -250,7 +250,9 @@ func (r *rig) sendSnapshot(n *node, s []string, dup bool) {
 // settle: the agent has handled everything sent to it so far and the events it published have reached the monitor
 func (r *rig) settle(n *node) error {
 	done := make(chan struct{})
-	go func() { n.c.Members(); close(done) }()
+	// twice: handling the first request's predecessors may have made the agent send a message to itself (the local copy
+	// of a broadcast); that one is in front of the second request
+	go func() { n.c.Members(); n.c.Members(); close(done) }()
 	select {
 	case <-done:
 	case <-time.After(5 * time.Second):
@@ -442,7 +444,7 @@ func runProviderScenario(cfg Config, sc Scenario) (fail *Failure) {
 		}
 		// the provider's own list (it answers every handshake with its complete member list) ...
 		var ids []string
-		deadline := time.Now().Add(2 * time.Second)
+		deadline := time.Now().Add(10 * time.Second)
 		for {
 			ids, err = r.handshake(n, n.name)
 			if err != nil {
@@ -458,6 +460,7 @@ func runProviderScenario(cfg Config, sc Scenario) (fail *Failure) {
 		}
 		// ... and what the agent has been told
 		var view []string
+		deadline = time.Now().Add(10 * time.Second)
 		for {
 			view = view[:0]
 			for _, m := range n.c.Members() {
